@@ -438,6 +438,7 @@ type c13ConcDesc struct {
 	Kind  string   `json:"kind"`  // "concurrent"
 	Regs  []string `json:"regs"`  // names registered by one thread each (same name twice = competing registrations)
 	Serve bool     `json:"serve"` // a serving call is started concurrently and queried twice
+	Intro bool     `json:"intro,omitempty"` // an in-process caller introspects (GetInfo, then the description of every listed name) while the registrations run
 }
 
 type c13ConcState struct {
@@ -495,7 +496,44 @@ func c13ConcBody(d c13ConcDesc) func() {
 				s.Shutdown()
 			})
 		}
-		vsched.Yield("wait-regs", "H", func() bool { return done == len(d.Regs) })
+		introDone := !d.Intro
+		if d.Intro {
+			vsched.GoDaemon("I", func() {
+				// whatever moment the introspection falls on: every name GetInfo lists has its description
+				call := func(method string, params interface{}) (errName string, p map[string]json.RawMessage) {
+					req, _ := json.Marshal(map[string]interface{}{"method": method, "parameters": params})
+					var cp capture
+					if err := s.HandleMessage(live, &cp, req); err != nil || len(cp.out) == 0 {
+						return "handle:" + errStr(err), nil
+					}
+					var rep struct {
+						Error      string                     `json:"error"`
+						Parameters map[string]json.RawMessage `json:"parameters"`
+					}
+					json.Unmarshal(cp.out[:len(cp.out)-1], &rep)
+					return rep.Error, rep.Parameters
+				}
+				for round := 0; round < 2 && st.fail == ""; round++ {
+					e, p := call("org.varlink.service.GetInfo", nil)
+					var listed []string
+					json.Unmarshal(p["interfaces"], &listed)
+					if e != "" || len(listed) == 0 || listed[0] != "org.varlink.service" {
+						st.fail, st.key = fmt.Sprintf("in-process GetInfo during registrations: error %q interfaces %v", e, listed), "introspection-inconsistent"
+						break
+					}
+					for _, n := range listed[1:] {
+						e, p := call("org.varlink.service.GetInterfaceDescription", map[string]string{"interface": n})
+						var desc string
+						json.Unmarshal(p["description"], &desc)
+						if e != "" || !strings.HasPrefix(desc, "d") {
+							st.fail, st.key = fmt.Sprintf("GetInfo listed %q, but GetInterfaceDescription(%q) right afterwards answered error %q description %q", n, n, e, desc), "introspection-inconsistent"
+						}
+					}
+				}
+				introDone = true
+			})
+		}
+		vsched.Yield("wait-regs", "H", func() bool { return done == len(d.Regs) && introDone })
 		st.names = s.VerifNames()
 	}
 }
@@ -516,6 +554,9 @@ func c13ConcCheck(d c13ConcDesc) func(x *vsched.Exec) (string, string) {
 		}
 		w := worldOf(x)
 		st := w.LC.(*c13ConcState)
+		if st.fail != "" {
+			return st.fail, "symptom=" + st.key
+		}
 		if len(st.res) != len(d.Regs) {
 			return fmt.Sprintf("registrations did not finish (parked %v)", x.Parked), "symptom=history-stuck"
 		}
@@ -678,6 +719,11 @@ func scenariosC13(tier string) []Scen {
 			}
 			out = append(out, Scen{Desc: d, Bound: cb, Body: c13ConcBody(d), Check: c13ConcCheck(d), Obs: c13ConcObs})
 		}
+	}
+	// introspection racing with accepted registrations (in-process, as after a Shutdown with a connection still open)
+	for _, regs := range [][]string{{"t.x"}, {"t.x", "t.y"}} {
+		d := c13ConcDesc{Kind: "concurrent", Regs: regs, Intro: true}
+		out = append(out, Scen{Desc: d, Bound: cb, Body: c13ConcBody(d), Check: c13ConcCheck(d), Obs: c13ConcObs})
 	}
 	return out
 }
